@@ -255,7 +255,17 @@ pub fn run_terms(ch: &mut Choices, verbose: bool) -> TermsReport {
     let tape_seed = ch.bits() as u64;
     // "wide" runs: shallow descriptions with large unordered containers (9-16 elements)
     let wide = ch.chance(1, 6);
-    let gp = if wide {
+    // "deep" runs: narrow descriptions nested 5-11 levels
+    let deep = !wide && ch.chance(1, 8);
+    let gp = if deep {
+        GenParams {
+            max_depth: ch.range(5, 11),
+            max_fan: 2,
+            n_names: ch.range(2, 4),
+            unordered_bias: 3,
+            exotic: false,
+        }
+    } else if wide {
         GenParams {
             max_depth: ch.range(1, 2),
             max_fan: ch.range(9, 16),
@@ -275,6 +285,8 @@ pub fn run_terms(ch: &mut Choices, verbose: bool) -> TermsReport {
     // caller threads: in "hop" runs some values are built, hashed or compared on another thread
     // (one at a time: the simulated thread that runs next is a decision of the schedule)
     let hops = ch.chance(1, 5);
+    // mutation histories: hash / store a value, change it in place, compare with a fresh build
+    let mutate_phase = ch.chance(1, 3);
     let rp = RealiseParams {
         reorder: !ch.chance(1, 10),
         duplicates: ch.chance(1, 2),
@@ -364,6 +376,60 @@ pub fn run_terms(ch: &mut Choices, verbose: bool) -> TermsReport {
                 descs.push(dm);
             }
         }
+        // ---- mutation histories: a value that was already hashed / stored is changed in place
+        //      through the public API, and must then behave exactly like a freshly built value of
+        //      the new description (nothing remembered from before may survive the change) ----
+        if mutate_phase && !pool.is_empty() {
+            let src = ch.choose(k_real.min(pool.len() as u32)) as usize;
+            let which = ch.choose(3);
+            if let Some((d_new, label)) = mutate_desc(&d0, which, ch) {
+                let mut m = pool[src].term.clone();
+                // warm whatever could be remembered: hash it, store it, compare it
+                let _ = hash3(&m, outer_key);
+                let mut warm: HashSet<Term, SipBuild> = HashSet::with_hasher(SipBuild);
+                warm.insert(m.clone());
+                let _ = m == pool[src].term;
+                let applied = match which {
+                    0 => {
+                        // push a batch containing a new element (twice) and differently realised
+                        // copies of elements that are already there
+                        let (extra, dups) = match (&d0, &d_new) {
+                            (Desc::Set(_, old), Desc::Set(_, new)) | (Desc::Seq(_, old), Desc::Seq(_, new)) => (new[old.len()..].to_vec(), old.clone()),
+                            _ => (vec![], vec![]),
+                        };
+                        let mut batch: Vec<Term> = vec![];
+                        let is_set = matches!(d0, Desc::Set(..));
+                        if is_set && !dups.is_empty() && ch.chance(2, 3) {
+                            let i = ch.choose(dups.len() as u32) as usize;
+                            batch.push(realise(&dups[i], ch, &mut rstats, &rp));
+                        }
+                        for x in &extra {
+                            batch.push(realise(x, ch, &mut rstats, &rp));
+                        }
+                        if is_set && !extra.is_empty() {
+                            batch.push(realise(&extra[0], ch, &mut rstats, &rp));
+                        }
+                        m.push_components(batch).is_ok()
+                    }
+                    1 => rename_first_atom(&mut m, "renamed"),
+                    _ => swap_root_operands(&mut m),
+                };
+                if applied {
+                    rstats.mutations += 1;
+                    let rt = abstract_term(&m);
+                    let (layout, _) = layout_of(&m);
+                    let label_m = format!("D0.r{src}.mutated[{label}]");
+                    log.d.u64(layout);
+                    log.line(|| format!("mutate in place {label_m}: `{}`", show_physical(&m)));
+                    pool.push(Entry { label: label_m, desc: 90, term: m, r: rt, layout });
+                    // and the same description built from scratch
+                    log.line(|| format!("D90 = D0 after {label}: {}", show_rterm(&canon(&d_new))));
+                    add(90, &d_new, 1, ch, &mut rstats, &mut log, &mut pool);
+                    descs.push(d_new);
+                }
+                drop(warm);
+            }
+        }
         (pool, near_labels)
     });
     match realised {
@@ -416,6 +482,43 @@ pub fn run_terms(ch: &mut Choices, verbose: bool) -> TermsReport {
                         }
                     }
                 }
+            }
+            // one table holding every pool value: exactly one entry per distinct term, and every
+            // pool value finds an entry that denotes the same term (only meaningful if == itself
+            // answered correctly everywhere: an equality defect is C06's, not hashing's)
+            let eq_all_correct = (0..n).all(|i| (0..n).all(|j| matrix[i][j] == (c.pool[i].r == c.pool[j].r)));
+            if eq_all_correct && n > 0 {
+                let classes: std::collections::BTreeSet<&RTerm> = c.pool.iter().map(|e| &e.r).collect();
+                macro_rules! table_check {
+                    ($build:expr, $name:expr) => {{
+                        let mut table: HashSet<Term, _> = HashSet::with_hasher($build);
+                        for e in c.pool.iter() {
+                            table.insert(e.term.clone());
+                        }
+                        c.stats.container_ops += n as u64;
+                        c.log.d.u64(table.len() as u64);
+                        if table.len() != classes.len() {
+                            let m = format!("a HashSet<{}> filled with the {} pool values ({} distinct terms) holds {} entries", $name, n, classes.len(), table.len());
+                            c.violate("C07", "hash-table-entry-count-differs-from-distinct-terms", m);
+                        }
+                        for e in c.pool.iter() {
+                            c.stats.container_ops += 1;
+                            match table.get(&e.term) {
+                                Some(hit) if abstract_term(hit) == e.r => {}
+                                Some(hit) => {
+                                    let m = format!("HashSet<{}>::get({} `{}`) returned a different term `{}`", $name, e.label, show_physical(&e.term), show_physical(hit));
+                                    c.violate("C07", "hash-table-returns-different-term", m);
+                                }
+                                None => {
+                                    let m = format!("a HashSet<{}> filled with all pool values does not contain {} `{}`", $name, e.label, show_physical(&e.term));
+                                    c.violate("C07", "hash-table-misses-inserted-term", m);
+                                }
+                            }
+                        }
+                    }};
+                }
+                table_check!(SipBuild, HASHER_NAMES[0]);
+                table_check!(FnvBuild, HASHER_NAMES[1]);
             }
             (matrix, n)
         });
@@ -685,4 +788,86 @@ pub fn run_terms(ch: &mut Choices, verbose: bool) -> TermsReport {
 #[inline]
 fn descs_len_plus(m: usize) -> usize {
     m + 1
+}
+
+
+// ---------------------------------------------------------------------------------------------
+// in-place mutations through the public API, mirrored on the description
+
+/// the description after mutation `which` (0 push into the root container, 1 rename the first
+/// atom reachable without crossing an unordered container, 2 swap the root statement's operands)
+fn mutate_desc(d: &Desc, which: u32, ch: &mut Choices) -> Option<(Desc, &'static str)> {
+    match which {
+        0 => match d {
+            Desc::Set(k, v) => {
+                let mut v = v.clone();
+                v.push(Desc::Atom(A_WORD, "pushed".into()));
+                if ch.chance(1, 2) {
+                    v.push(Desc::Set(S_SET_EXT, vec![Desc::Atom(A_WORD, "p1".into()), Desc::Atom(A_WORD, "p2".into())]));
+                }
+                Some((Desc::Set(*k, v), "push_components into an unordered root"))
+            }
+            Desc::Seq(k, v) => {
+                let mut v = v.clone();
+                v.push(Desc::Atom(A_WORD, "pushed".into()));
+                Some((Desc::Seq(*k, v), "push_components into an ordered root"))
+            }
+            _ => None,
+        },
+        1 => {
+            let mut m = d.clone();
+            if rename_first_atom_desc(&mut m, "renamed") {
+                Some((m, "set_atom_name on a nested atom"))
+            } else {
+                None
+            }
+        }
+        _ => match d {
+            Desc::Pair(k, a, b) => Some((Desc::Pair(*k, b.clone(), a.clone()), "swap of the root statement's operands")),
+            Desc::Sym(k, a, b) => Some((Desc::Sym(*k, b.clone(), a.clone()), "swap of the root statement's operands")),
+            _ => None,
+        },
+    }
+}
+
+fn rename_first_atom_desc(d: &mut Desc, name: &str) -> bool {
+    match d {
+        Desc::Atom(_, n) => {
+            *n = name.to_string();
+            true
+        }
+        Desc::Interval(_) | Desc::Placeholder | Desc::Set(..) => false,
+        Desc::Seq(_, v) | Desc::Image(_, _, v) => v.iter_mut().any(|x| rename_first_atom_desc(x, name)),
+        Desc::Neg(a) => rename_first_atom_desc(a, name),
+        Desc::Pair(_, a, b) | Desc::Sym(_, a, b) => rename_first_atom_desc(a, name) || rename_first_atom_desc(b, name),
+    }
+}
+
+/// the same walk on the real value (elements of unordered containers are never mutated in place:
+/// that would be misuse of a hash set, not a property of the library)
+fn rename_first_atom(t: &mut Term, name: &str) -> bool {
+    use Term::*;
+    match t {
+        Word(..) | VariableIndependent(..) | VariableDependent(..) | VariableQuery(..) | Operator(..) => t.set_atom_name(name).is_ok(),
+        Placeholder | Interval(..) => false,
+        SetExtension(..) | SetIntension(..) | IntersectionExtension(..) | IntersectionIntension(..) | Conjunction(..) | Disjunction(..) | ConjunctionParallel(..) => false,
+        Product(v) | ConjunctionSequential(v) | ImageExtension(_, v) | ImageIntension(_, v) => v.iter_mut().any(|x| rename_first_atom(x, name)),
+        Negation(a) => rename_first_atom(a, name),
+        DifferenceExtension(a, b) | DifferenceIntension(a, b) | Inheritance(a, b) | Similarity(a, b) | Implication(a, b) | Equivalence(a, b)
+        | ImplicationPredictive(a, b) | ImplicationConcurrent(a, b) | ImplicationRetrospective(a, b) | EquivalencePredictive(a, b)
+        | EquivalenceConcurrent(a, b) => rename_first_atom(a, name) || rename_first_atom(b, name),
+    }
+}
+
+fn swap_root_operands(t: &mut Term) -> bool {
+    use Term::*;
+    match t {
+        DifferenceExtension(a, b) | DifferenceIntension(a, b) | Inheritance(a, b) | Similarity(a, b) | Implication(a, b) | Equivalence(a, b)
+        | ImplicationPredictive(a, b) | ImplicationConcurrent(a, b) | ImplicationRetrospective(a, b) | EquivalencePredictive(a, b)
+        | EquivalenceConcurrent(a, b) => {
+            std::mem::swap(a, b);
+            true
+        }
+        _ => false,
+    }
 }
